@@ -77,4 +77,4 @@ def search(rng, ops, broken):
 
 
 # tie theorems (substrings of SLV.Gen.*Tie theorem names) this property's operators depend on
-TIE = ['gen_mbr', 'deduce_of', 'Deduction', 'abduce']
+TIE = ['gen_mbr', 'deduce_of', 'Deduction', 'abduce', 'gen_is_in_range_eq', 'gen_in_unit_interval_eq', 'gen_is_one_eq', 'gen_is_zero_eq', 'gen_check_unit_interval_eq', 'gen_check_is_one_eq', 'OpinionRef_deduce', 'Opinion_deduce']
